@@ -785,9 +785,13 @@ def strata(rng, tier, count):
             lines.append(s_line(dist, rng.u64(), 300, ps))
             count("special:s:%s:%s" % (dist, rg))
         if j % 4 == rng.randint(0, 3) or not quick:
-            lines.append(r_line(ROUTES[j % 4], dist, rng.u64(), 200, ps))
-            count("special:route:%s" % ROUTES[j % 4])
-        if flag != TIE_ONLY and regime(dist, ps) != "range>=2^63":
+            route = ROUTES[j % 4]
+            if route == "default" and any(isinstance(x, int) and abs(x) > 2 ** 53 for x in ps):
+                route = "clone"          # `update` takes f64 parameters: integers beyond 2^53 do not survive that route
+            lines.append(r_line(route, dist, rng.u64(), 200, ps))
+            count("special:route:%s" % route)
+        qpar = rng.randint(0, 1)
+        if flag != TIE_ONLY and regime(dist, ps) != "range>=2^63" and (not quick or j % 2 == qpar):
             lines.append(q_line(dist, rng.u64(), nq, KQ, ps))
             count("special:q:%s:%s" % (dist, rg))
     # 2: size boundaries of sample_n / sample_matrix
@@ -1013,10 +1017,10 @@ def nontrivial(line, reply):
     if reply.startswith("#"):
         return None
     t = line.split()
-    if t[0] in ("mvn", "qmvn"):
+    if t[0] in ("mvn", "qmvn", "mvns"):
         return " ".join(t[:1] + t[2:24])
     o = parse_line(line)
-    return "%s%s %s %s %s" % (o["op"], ":" + o["hist"] if "hist" in o else "", o["dist"],
+    return "%s%s %s %s %s" % (o["op"], ":" + o["hist"] if "hist" in o else (":" + o["route"] if "route" in o else ""), o["dist"],
                               regime(o["dist"], o["ps"]) if valid(o["dist"], o["ps"]) else "invalid", fmt_params(o["dist"], o["ps"]))
 
 
